@@ -708,6 +708,7 @@ func init() {
 		registerReplay("C05/cuts", func(c cutCase) *fail { return runCutCase(c, nil) })
 		registerReplay("C05/clunk-race", runRaceCase)
 		registerReplay("C05/partial-mask", runPartialMaskCase)
+		registerReplay("C05/teardown-faults", runTeardownFaultCase)
 		registerReplay("C05/faults", func(c faultCase) *fail {
 			if f := runFaultCase(c, nil); f != nil && (lifeSig(f.Sig) || strings.HasPrefix(f.Sig, "harness-")) {
 				return f
@@ -872,6 +873,30 @@ func TestC05(t *testing.T) {
 	})
 
 	// (d) unbinding a fid while an operation on it is inside the backend:
+	// (j) Close fails for some of the Files that are still bound when the connection
+	// ends: every remaining File is still closed once (errors only: a panic at
+	// teardown belongs to no request and is not judged)
+	rapidCases(h, "teardown-faults", env.PerShard(env.Pick(1600, 60000)), func(rt *rapid.T) teardownFaultCase {
+		c := teardownFaultCase{Native: rapid.Bool().Draw(rt, "native"), Errno: rapid.SampledFrom([]int{5, 28, 13, 122}).Draw(rt, "errno"),
+			Clunk: -1}
+		paths := []string{"d", "d/f", "d/e", "f", "l", "p", "", "d", "d/f"}
+		for i := rapid.IntRange(2, 8).Draw(rt, "n"); i > 0; i-- {
+			c.Walks = append(c.Walks, rapid.SampledFrom(paths).Draw(rt, "w"))
+		}
+		for i := rapid.IntRange(1, 3).Draw(rt, "nf"); i > 0; i-- {
+			c.Fail = append(c.Fail, rapid.IntRange(-1, len(c.Walks)-1).Draw(rt, "fi"))
+		}
+		if rapid.IntRange(0, 3).Draw(rt, "clunk") == 0 {
+			c.Clunk = rapid.IntRange(0, len(c.Walks)-1).Draw(rt, "ci")
+		}
+		return c
+	}, func(c teardownFaultCase) *fail {
+		h.Case(evid.HashJSON(c), len(c.Walks) >= 3, "teardown-faults")
+		if h.WantSample("teardown-faults") {
+			h.Sample("teardown-faults", c)
+		}
+		return runTeardownFaultCase(c)
+	})
 	// (i) a backend with partial attribute masks
 	rapidCases(h, "partial-mask", env.PerShard(env.Pick(3000, 60000)), func(rt *rapid.T) partialMaskCase {
 		return partialMaskCase{Native: rapid.Bool().Draw(rt, "native"), Reqs: genSessionReqs(rt, 20)}
